@@ -1,4 +1,5 @@
 import Swat4.Lemmas.ReporterUC
+import Swat4.Lemmas.ReporterPost
 /-!
 # C05 — Reporter traffic from one IP can never touch another IP's servers
 
@@ -225,5 +226,160 @@ theorem removal_foreign_instance_rejected (cfg : Cfg) (st : AbsState) (hinv : In
     have : ia.ip ≠ svr.addr.ip := by rw [hsa, hok.1]; exact hne
     rw [if_pos this]
     simp only [finish, run_pure]
+
+
+/-! ## concrete two-party states (non-vacuity of the rejection theorems) -/
+
+def idX : Bytes := [0xde, 0xad, 0xbe, 0xef]
+def idY : Bytes := [0x01, 0x02, 0x03, 0x04]
+
+/-- the pairs of a valid first report for game port 10480 -/
+def reportBody : Bytes :=
+  kv "hostname" "Srv" ++ kv "hostport" "10480" ++ kv "localport" "10481" ++ kv "gamevariant" "SWAT 4" ++ kv "gamever" "1.1" ++
+  kv "gametype" "VIP Escort" ++ kv "mapname" "A-Bomb Nightclub" ++ kv "numplayers" "3" ++ kv "maxplayers" "16"
+
+/-- heartbeat datagram presenting instance id `id` -/
+def report (id : Bytes) : Bytes := 0x03 :: (id ++ reportBody)
+/-- removal datagram (`statechanged=2`) for game port 10480 presenting instance id `id` -/
+def removal (id : Bytes) : Bytes := 0x03 :: (id ++ (kv "hostport" "10480" ++ kv "localport" "10481" ++ kv "statechanged" "2"))
+
+def ipA : Nat := 0x02020202
+def ipB : Nat := 0x01010101
+def keyB : Nat := (⟨ipB, 10480⟩ : Addr).key
+
+/-- B (1.1.1.1) has registered 1.1.1.1:10480 under instance id X, then A (2.2.2.2) 2.2.2.2:10480 under Y -/
+def stBA : AbsState := runHistory ⟨3⟩ {} [⟨ipB, 1111, report idX, 1000⟩, ⟨ipA, 2222, report idY, 1256⟩]
+
+set_option maxRecDepth 20000 in
+/-- **joint non-vacuity of the seven hypotheses of `removal_foreign_instance_rejected`**: in the reachable state
+`stBA` (both servers present), A's removal of its own 2.2.2.2:10480 presenting B's instance id X parses, carries
+`statechanged=2`, derives the address 2.2.2.2:10480, and X is bound to 1.1.1.1:10480 — the theorem applies and the
+datagram is rejected with the state unchanged -/
+example : handleHeartbeat ⟨3⟩ stBA ipA 2222 (removal idX) 2000 = (stBA, .err) :=
+  removal_foreign_instance_rejected ⟨3⟩ stBA (inv_reachable _ _) ipA 2222 2000 (removal idX) idX
+    (kv "hostport" "10480" ++ kv "localport" "10481" ++ kv "statechanged" "2")
+    [(ascii "hostport", ascii "10480"), (ascii "localport", ascii "10481"), (ascii "statechanged", ascii "2")]
+    ⟨ipA, 10480⟩ 10481 (by decide) (by decide) (by decide) (by decide) (by decide) ⟨ipB, 10480⟩ 1000 (by decide) (by decide)
+
+set_option maxRecDepth 20000 in
+/-- … and both servers are indeed there (the rejection is not for want of a server) -/
+example : (stBA.servers[(⟨ipA, 10480⟩ : Addr).key]?).isSome = true ∧ (stBA.servers[keyB]?).isSome = true := by decide
+
+/-! ## the instance table -/
+
+theorem remove_instances (st : AbsState) (hinv : Inv st) (now : Int) (id : Nat) (a : Addr) (hok : a.PortOk) (i : Nat) (hi : i ≠ id) :
+    ((UC.remove id a).run st now).1.instances[i]? = st.instances[i]? := by
+  rw [remove_refines st hinv now id a hok]
+  split
+  · split
+    · rfl
+    · simp only [ExtTreeMap.getElem?_erase, Nat.compare_eq_eq]
+      rw [if_neg (Ne.symm hi)]
+  · rfl
+
+theorem report_instances (mr : Int) (st : AbsState) (hinv : Inv st) (now : Int) (id : Nat) (a : Addr) (qp : Int)
+    (info? : Option Fields) (i : Nat) (hi : i ≠ id) :
+    ((UC.report zeroInfo mr ⟨a, qp, id, info?⟩).run st now).1.instances[i]? = st.instances[i]? := by
+  have h := congrArg Prod.fst (report_refines mr st hinv now id a qp info?)
+  dsimp only at h
+  rw [h]
+  unfold reportSpec
+  split
+  · rfl
+  · split
+    · rfl
+    · simp only [ExtTreeMap.getElem?_insert, Nat.compare_eq_eq]
+      rw [if_neg (Ne.symm hi)]
+
+theorem renew_instances (st : AbsState) (hinv : Inv st) (now : Int) (id : Bytes) (srcIp : Nat) :
+    ((UC.renew (idNat id) srcIp).run st now).1.instances = st.instances := by
+  rw [renew_refines st hinv srcIp now id ⟨0⟩ 0]
+  unfold ReporterSpec.absStep
+  dsimp only
+  split
+  · rfl
+  · split
+    · rfl
+    · split <;> rfl
+
+/-- **The instance table changes only at the presented id.** (C05 speaks of server records; this is the matching
+frame for the `instances` component, which `Rep.Frame` does not cover.)  For every state satisfying the store
+invariant, every payload and source: if `instances[i]` differs before/after `dispatch`, then the datagram is a
+heartbeat-type datagram (type byte 03: report or removal — a keepalive never changes the table) of at least 5
+bytes and `i` is the instance id it presents (`payload[1:5]`).  NOTE what this does NOT exclude: the presented
+id may currently be bound to ANOTHER IP's server — a report rebinds it unconditionally (`instanceRepo.Add`
+overwrites); see the example below. -/
+theorem instances_change_only_for_presented_id (cfg : Cfg) (st : AbsState) (hinv : Inv st) (srcIp srcPort : Nat)
+    (payload : Bytes) (now : Int) (i : Nat)
+    (hdiff : (dispatch cfg st srcIp srcPort payload now).1.instances[i]? ≠ st.instances[i]?) :
+    ∃ id rest, parseInstanceID payload = some (id, rest) ∧ i = idNat id
+      ∧ payload.head?.map UInt8.toNat = some Facts.reporterMsgHeartbeat := by
+  revert hdiff
+  unfold dispatch
+  cases payload with
+  | nil => intro h; exact absurd rfl h
+  | cons t rest =>
+    dsimp only
+    split
+    · rename_i ht
+      unfold handleHeartbeat
+      cases hp : parseInstanceID (t :: rest) with
+      | none => intro h; exact absurd rfl h
+      | some p =>
+        obtain ⟨id, r⟩ := p
+        dsimp only
+        intro hdiff
+        refine ⟨id, r, rfl, ?_, by simp [ht]⟩
+        apply Classical.byContradiction
+        intro hne
+        apply hdiff
+        cases parseHeartbeatParams r with
+        | none => rfl
+        | some fields =>
+          dsimp only
+          split
+          · rfl
+          · cases ha : parseAddr srcIp fields with
+            | none => rfl
+            | some p =>
+              obtain ⟨a, qp⟩ := p
+              have hok := parseAddr_ok ha
+              dsimp only
+              split
+              · exact remove_instances st hinv now (idNat id) a hok.2 i hne
+              · exact report_instances cfg.maxRetries st hinv now (idNat id) a qp _ i hne
+    · split
+      · unfold handleKeepalive
+        split
+        · intro h; exact absurd rfl h
+        · intro h
+          exact absurd (by rw [show ∀ r ok, (finish r ok).1 = r.1 from fun _ _ => rfl, renew_instances st hinv]) h
+      · split
+        · intro h; exact absurd rfl h
+        · split <;> (intro h; exact absurd rfl h)
+
+/-- B (1.1.1.1) has registered 1.1.1.1:10480 under instance id X -/
+def stB : AbsState := runHistory ⟨3⟩ {} [⟨ipB, 1111, report idX, 1000⟩]
+/-- … then A (2.2.2.2) reports its own 2.2.2.2:10480 presenting the SAME instance id X -/
+def stB' : AbsState := step ⟨3⟩ stB ⟨ipA, 2222, report idX, 2024⟩
+
+set_option maxRecDepth 20000 in
+/-- **What the statement allows: a heartbeat from A presenting B's instance id REBINDS it to A.**  X was bound to
+1.1.1.1:10480; after A's report it is bound to 2.2.2.2:10480 (`reportserver` calls `instances.Add`, which
+overwrites, without looking at the current binding); B's server record is untouched (as C05 demands) — but B's
+keepalive with X, accepted before, is now rejected (`unknownInstance`: the instance belongs to another IP), and so
+would be B's removal, until B's next full heartbeat binds X back. -/
+example :
+    stB.instances[idNat idX]? = some (⟨ipB, 10480⟩, 1000)
+    ∧ stB'.instances[idNat idX]? = some (⟨ipA, 10480⟩, 2024)
+    ∧ stB'.servers[keyB]? = stB.servers[keyB]?
+    ∧ (stB.servers[keyB]?).isSome = true
+    ∧ (dispatch ⟨3⟩ stB ipB 1111 (0x08 :: idX) 3000).2 = .silent
+    ∧ (dispatch ⟨3⟩ stB' ipB 1111 (0x08 :: idX) 3000).2 = .err := by
+  refine ⟨?_, ?_, ?_, ?_, ?_, ?_⟩ <;> decide
+
+set_option maxRecDepth 20000 in
+/-- non-vacuity of the hypothesis of `instances_change_only_for_presented_id`: A's report changes `instances[X]` -/
+example : (dispatch ⟨3⟩ stB ipA 2222 (report idX) 2024).1.instances[idNat idX]? ≠ stB.instances[idNat idX]? := by decide
 
 end Swat4.C05
